@@ -569,6 +569,7 @@ def main():
                 del by_class[cls]
     violations = []
     known_hits = []
+    unreproduced = []
     exit_code = 0
     for cls, fl_list in by_class.items():
         f = fl_list[0]
@@ -591,8 +592,13 @@ def main():
                 # the batch ran 16 worlds at once; alone the run finishes inside its budget: slow, not stuck
                 other["slow-run-not-a-hang"] += len(fl_list)
                 continue
-            print("MACHINERY: replay of run %d did not reproduce %s (got %s)" % (f.run, cls, [g.cls() for g in got]))
-            return 2
+            # nothing is reported that does not reproduce from its replay file in a fresh process. On a tree that really
+            # races, the first four sanitizer reports of a run (after which the run ends) are not always the same four in
+            # the batch (forked from a zygote) and in a fresh process; such a class is dropped here, and the check ends
+            # with the machinery exit code only if nothing at all could be reproduced
+            unreproduced.append("%s (run %d, replay gave %s)" % (cls, f.run, [g.cls() for g in got][:3]))
+            other["unreproduced:%s" % cls] += len(fl_list)
+            continue
         # confirmations that keep a check from alarming on somebody else's property
         if prop == "C07" and f.kind in ("crash", "guard-page"):
             # a crash belongs to C07 only if it depends on the detected CPU features: the same program with the first
@@ -632,8 +638,9 @@ def main():
         h1 = r1.get("log_hash") if r1 else "fault:" + ";".join(e1)
         h2 = r2.get("log_hash") if r2 else "fault:" + ";".join(e2)
         if cls not in g1 or cls not in g2 or h1 != h2:
-            print("MACHINERY: minimised replay %s is not stable (%s / %s)" % (path, g1, g2))
-            return 2
+            unreproduced.append("%s (minimised replay %s not stable: %s / %s)" % (cls, path, g1[:3], g2[:3]))
+            other["unreproduced:%s" % cls] += len(fl_list)
+            continue
         k = is_known(known, prop, f)
         rec = {"class": cls, "kind": f.kind, "op": f.op, "detail": f.detail, "runs_hit": len(fl_list), "first_run": f.run, "world": f.world, "flavour": f.flavour,
                "replay": path, "minimised_calls": ncalls, "minimised_decisions": ndec, "minimiser_replays": tries}
@@ -651,6 +658,12 @@ def main():
         if len(violations) >= max_report:
             break
 
+    if unreproduced:
+        if not violations and not known_hits:
+            for u in unreproduced[:5]:
+                print("MACHINERY: seen in the batch but not reproducible from its replay file: %s" % u)
+            return 2
+        print("NOTE: %d further class(es) seen in the batch did not reproduce from their replay file in a fresh process and are not reported: %s" % (len(unreproduced), "; ".join(unreproduced[:3])))
     wall = time.time() - t_start
     runs_done = sum(p["runs"] for p in per_world)
     rule = {
